@@ -54,8 +54,18 @@ def dir_items(draw, depth, full, gopher_ok, toplevel, max_items=5, kinds=None, l
         elif kind == "html":
             name = name.split(".")[0] + ".html"
             title = draw(st.text("abc XYZ019", min_size=1, max_size=10).map(str.strip).filter(bool))
-            item = {"kind": "html", "title": title,
-                    "content": "<html><head><title>%s</title></head><body>x</body></html>\n" % title}
+            shape = draw(st.sampled_from(["plain", "plain", "script-on-title-line", "style-on-title-line", "title-over-lines",
+                                          "comment-before", "upper"]))
+            content = {
+                "plain": "<html><head><title>%s</title></head><body>x</body></html>\n",
+                # ordinary pages: a script / style element opened on the line of </title> and closed later
+                "script-on-title-line": "<html><head><title>%s</title><script type=\"text/javascript\">\nvar a = '<b>' + 1;\n</script>\n</head><body>x</body></html>\n",
+                "style-on-title-line": "<html><head>\n<title>%s</title><style>\nb { color: red }\n</style></head><body>x</body></html>\n",
+                "title-over-lines": "<html>\n<head>\n<title>%s\n</title>\n</head><body>x</body></html>\n",
+                "comment-before": "<!-- <title>not this</title> -->\n<html><head><title>%s</title></head><body>x</body></html>\n",
+                "upper": "<HTML><HEAD><TITLE>%s</TITLE></HEAD><BODY>x</BODY></HTML>\n",
+            }[shape] % title
+            item = {"kind": "html", "title": title, "content": content}
         elif kind == "bin":
             name = name.split(".")[0] + draw(st.sampled_from([".gif", ".dat", ".jpg"]))
             item = {"kind": "bin", "content": draw(gen.binary_content)}
